@@ -36,5 +36,5 @@ Definition cpu_count_user (os_cpu_count : Z) (aff : option Z) (cg : option Z) (l
 Definition cpu_count (os_raw : option Z) (aff : option Z) (cg : option Z) (loky_env : option Z) (only_physical_cores : bool) : result Z :=
   let os_cpu_count := (match os_raw with Some c => if c =? 0 then 1 else c | None => 1 end) in
   bind (cpu_count_user os_cpu_count aff cg loky_env) (fun cpu_count_user =>
-  let aggregate_cpu_count := (Z.min os_cpu_count cpu_count_user) in
+  let aggregate_cpu_count := (Z.max (Z.min os_cpu_count cpu_count_user) (1)) in
   if (negb only_physical_cores) then (Ok (aggregate_cpu_count)) else (Raise RuntimeError (* fell off the end: returns None *))).
